@@ -5,10 +5,9 @@ import json
 import os
 import random
 
-from sfv.framework import Ctx, Property
+from sfv.framework import Ctx, Inconclusive, Property
 from sfv.rt import cwldiff as C
 from sfv.rt import cwlgen_wf as G
-from sfv.rt.par import pmap
 from sfv.translate import cwlops
 
 
@@ -231,7 +230,7 @@ class C29(Property):
     drivers = ["Drivers/C29.lean"]
     translators = [cwlops.generate]
     quick_budget_s = 1500
-    thorough_budget_s = 7200
+    thorough_budget_s = 2400
     min_nontrivial = 20
     rule = ("(i) operator level: random lists of optional values through the real First/Only/AllNonNullTransformer._transform and random "
             "tagged sources through the real _flatten_token_list, against the Lean model and the Lean spec; class level: the real "
@@ -374,9 +373,8 @@ class C29(Property):
                  "corpus" if d.get("corpus") else "random")
         ctx.count(f"outcome:{o1}/{o2}")
         key = d.get("key") or ("random:disagreement" if not d.get("corpus") else f"corpus:{d['name']}:disagreement")
-        if "timeout" in (o1, o2):
-            ctx.fail("hang:" + ("streamflow" if o1 == "timeout" else "cwltool"), f"{d['name']}: runner did not finish ({o1}/{o2})", case)
-            return
+        if "timeout" in (o1, o2):   # cannot happen: run_cases_confirmed re-runs such cases alone or ends the check inconclusive
+            raise Inconclusive(f"{d['name']}: runner did not finish ({o1}/{o2})")
         if o1 != o2:
             ctx.fail(key, f"{d['name']}: StreamFlow {o1}, cwltool {o2}; sf stderr: {sf['stderr'][-400:]} ct stderr: {ct['stderr'][-300:]}", case)
         elif o1 == "success" and sf["norm"] != ct["norm"]:
@@ -425,19 +423,22 @@ class C29(Property):
         ctx.corpus_replayed += len(corpus)
         done = 0
         chunk = 16
+        budget = self.quick_budget_s if ctx.tier == "quick" else self.thorough_budget_s
         for start in range(0, len(cases), chunk):
-            if start >= len(corpus) and ctx.time_left() < 240:
-                ctx.notes.append(f"budget: {len(cases) - start} random documents not run")
-                if done < len(corpus) + 6:
+            # adaptive plan: no new documents once 70 % of the budget is used (the corpus always runs)
+            if start >= len(corpus) and ctx.time_left() < 0.3 * budget:
+                ctx.notes.append(f"adaptive plan: {len(cases) - start} of {len(cases) - len(corpus)} random documents not run (70% of the budget used)")
+                if done < len(corpus) + 4:
                     ctx.extra["incomplete"] = True
                 break
-            for case, status, res in pmap(C.run_case, cases[start:start + chunk], timeout=2400, workers=8):
-                d, ln = by_id[case["id"]]
-                done += 1
-                if status != "ok":
-                    ctx.fail("hang:harness", f"{d['name']}: {status}: {str(res)[:300]}", {"op": "doc", "name": d["name"], "doc": d["doc"], "job": d["job"]})
-                    continue
-                self._compare(ctx, d, res, ln)
+            try:
+                for case, res in C.run_cases_confirmed(cases[start:start + chunk], time_left=ctx.time_left):
+                    d, ln = by_id[case["id"]]
+                    done += 1
+                    self._compare(ctx, d, res, ln)
+            except C.Unconfirmed as e:
+                raise Inconclusive(str(e)) from e
+        ctx.extra["documents_planned"] = len(cases)
         ctx.extra["documents_run"] = done
 
     def replay(self, ctx: Ctx, data) -> None:
